@@ -78,6 +78,13 @@ CLAIMED = {
         "Witnesses are verified feasible, so a weak witness costs power, never soundness; excitation checked with the default solver only; two open known findings (C07-K1/K2) cover the SCS bisection's inaccurate iterates.",
         "DESIGN.md section 6 C07",
     ),
+    "C08": (
+        "Hypothesis property-based testing: membership in the tolerance set, exact HiGHS LPs for the linear secondary goals (two-sided bracket), SLSQP witnesses for the quadratic goals",
+        "Generated under-determined systems x in-gamut targets x every option {None,'l2','min','max','var',number,vector} x l2_eps in [1e-6,1e-3] through both entry points; "
+        "the returned intensities must lie in F and be no worse than an independently computed feasible optimum of the selected goal.",
+        "Witness principle for quadratic goals (one-sided sound); rows whose LP margin is below 1e-6 are dropped (the property is about in-gamut targets).",
+        "DESIGN.md section 6 C08",
+    ),
 }
 
 PENDING_REASON = "check not built yet in this revision (planned, see DESIGN.md section 6); not claimed until its check runs quietly on the unchanged tree"
